@@ -10,6 +10,7 @@ then behaves as ``BEHAVIOUR[0]`` says: return normally or raise an exception bui
 from __future__ import annotations
 
 import io
+from decimal import Decimal
 from dataclasses import dataclass
 from enum import Enum
 from typing import Annotated, Any, Protocol  # noqa: F401 - names used by exec'd source
@@ -81,7 +82,7 @@ MAP_T = pa.map_(pa.utf8(), pa.int64())
 #          [(alternative arrow type, wire value)] used by the retype perturbation)
 KINDS: dict[str, tuple[str, pa.DataType, str, Any, list[tuple[pa.DataType, Any]]]] = {
     "int": ("int", pa.int64(), "KPlain", 7, [(pa.int32(), 7), (pa.float64(), 7.0), (pa.uint64(), 7), (pa.utf8(), "7")]),
-    "float": ("float", pa.float64(), "KPlain", 1.5, [(pa.float32(), 1.5), (pa.int64(), 1), (pa.decimal128(5, 2), None)]),
+    "float": ("float", pa.float64(), "KPlain", 1.5, [(pa.float32(), 1.5), (pa.int64(), 1), (pa.decimal128(5, 2), Decimal("1.50"))]),
     "str": ("str", pa.utf8(), "KPlain", "s", [(pa.large_utf8(), "s"), (pa.binary(), b"s"), (ENUM_T, "s")]),
     "bool": ("bool", pa.bool_(), "KPlain", True, [(pa.int8(), 1)]),
     "bytes": ("bytes", pa.binary(), "KPlain", b"b", [(pa.large_binary(), b"b"), (pa.utf8(), "b")]),
@@ -119,7 +120,8 @@ def build_service(methods: list[tuple[str, bool, list[Param]]]) -> RpcServer:
         proto.append(f"    def {name}(self, {', '.join(sig)}) -> {ret}: ..." if sig else f"    def {name}(self) -> {ret}: ...")
         body = f"_behave({name!r}, dict({', '.join(p[0] + '=' + p[0] for p in params)}))"
         tail = "return Stream(output_schema=pa.schema([]), state=C06State())" if is_stream else "return 1"
-        impl.append(f"    def {name}(self{''.join(', ' + s for s in isig)}):\n        {body}\n        {tail}")
+        iret = " -> Stream[C06State]" if is_stream else ""
+        impl.append(f"    def {name}(self{''.join(', ' + s for s in isig)}){iret}:\n        {body}\n        {tail}")
     ns = dict(globals())
     exec("\n".join(proto) + "\n" + "\n".join(impl) + "\n", ns)  # noqa: S102 - generated Protocol / implementation
     return RpcServer(ns["P"], ns["Impl"](), enable_describe=False)
